@@ -1697,27 +1697,44 @@ class LoopSpec:
         self.executes_at_least_once = executes_at_least_once
         self.on_exit = on_exit            # callback(ctx, env): obligations about the state in which the loop is left
 
+    def _cb(self, fn, *a):
+        """a loop contract names locals of the function; a local that no longer exists (renamed) means the contract lost its anchor: out of reach"""
+        try:
+            return fn(*a)
+        except KeyError as e:
+            raise Unsupported(f'contract anchor lost: the loop contract {self.name!r} names local {e.args[0]!r}, which the function does not bind')
+
+    def _havoc(self, ctx, env, phase, assigned):
+        before = dict(env.vars)
+        self._cb(self.havoc, ctx, env, phase)
+        changed = {k for k in env.vars if k not in before or env.vars[k] is not before[k]}
+        left = sorted(assigned - changed)
+        if left:
+            # soundness of the loop rule: every local the body assigns must be arbitrary at the loop head
+            raise Unsupported(f'contract anchor lost: the loop body assigns {left}, which the loop contract {self.name!r} does not havoc')
+
     def run_while(self, it, st, env, k):
         ctx = it.ctx
         if st.orelse:
             raise Unsupported('while/else with invariant')
-        ctx.prove(f'{self.name}.init', self.invariant(ctx, env, 'init'), kind='loop')
+        assigned = {n.id for b in st.body for n in ast.walk(b) if isinstance(n, ast.Name) and isinstance(n.ctx, ast.Store)}
+        ctx.prove(f'{self.name}.init', self._cb(self.invariant, ctx, env, 'init'), kind='loop')
         if self.executes_at_least_once:
             g0 = it.ev(st.test, env)
             ctx.prove(f'{self.name}.entered', V.zbool(g0) if is_sym(g0) else bool(g0), kind='loop')
         with ctx.scope():
-            self.havoc(ctx, env, 'pre')
-            ctx.assume(self.invariant(ctx, env, 'pre'))
+            self._havoc(ctx, env, 'pre', assigned)
+            ctx.assume(self._cb(self.invariant, ctx, env, 'pre'))
             g = it.ev(st.test, env)
             ctx.assume(V.zbool(g) if is_sym(g) else (z3.BoolVal(True) if it.truth(g) else z3.BoolVal(False)))
             try:
                 it.run(st.body, env)
             except (_Break, _Continue):
                 raise Unsupported('break/continue inside a loop with invariant')
-            ctx.prove(f'{self.name}.preserved', self.invariant(ctx, env, 'post'), kind='loop')
-        self.havoc(ctx, env, 'exit')
-        ctx.assume(self.invariant(ctx, env, 'exit'))
+            ctx.prove(f'{self.name}.preserved', self._cb(self.invariant, ctx, env, 'post'), kind='loop')
+        self._havoc(ctx, env, 'exit', assigned)
+        ctx.assume(self._cb(self.invariant, ctx, env, 'exit'))
         g = it.ev(st.test, env)
         ctx.assume(V.not_(V.zbool(g)) if is_sym(g) else z3.BoolVal(not it.truth(g)))
         if self.on_exit:
-            self.on_exit(ctx, env)
+            self._cb(self.on_exit, ctx, env)
